@@ -951,10 +951,23 @@ func (e *flowEngine) findSources(fn *ssa.Function) []*flowSource {
 // fields themselves ("store:T.F", informational) and "escape:retN" markers. Facts of callers are not
 // included: a value that leaves the function is a new source at each call site (RetSources).
 func (e *flowEngine) Facts(src *flowSource) map[string]flabel {
+	out, _ := e.FactsSites(src)
+	return out
+}
+
+// FactsSites additionally returns the identities of the sink sites reached, per kind.
+func (e *flowEngine) FactsSites(src *flowSource) (map[string]flabel, map[string]map[string]bool) {
 	out := map[string]flabel{}
 	sum := e.forwardFrom(src.fn, src.call, src.idx, lRaw, 0)
 	e.collectLocal(out, sum)
-	return out
+	sites := map[string]map[string]bool{}
+	for k, m := range sum.sites {
+		sites[k] = map[string]bool{}
+		for s := range m {
+			sites[k][s] = true
+		}
+	}
+	return out, sites
 }
 
 func (e *flowEngine) collectLocal(out map[string]flabel, sum *flowSummary) {
